@@ -13,7 +13,7 @@ RULE = (
     "maxsize 1-4; default key and a custom key_fn), acached_per_instance (1-3 instances, instances dropped and "
     "garbage-collected mid-history, two different keys awaited in one yield) and alazy_constant (ttl 0 / >0 with a "
     "scripted clock assigned to asynq.tools.utime, dirty()); every call uses one of 6 spellings of the same arguments "
-    "(positional, keyword, mixed, defaults omitted, keyword-only); bodies return a fresh token per execution, block on a "
+    "(positional, keyword, mixed, defaults omitted, keyword-only); bodies return a fresh token per execution (sometimes a falsy object or None - a cached falsy value is still a hit), block on a "
     "batch item or not, and raise on demand. Reference: LRU dict with recency update on hit / per-instance dict / "
     "refresh-time model, keyed on the arguments normalised through the wrapped signature (or key_fn). 'Hit' vs 'miss' is "
     "read off the returned token and the execution log. distinct = (cache kind, history hash); non-trivial = the "
@@ -39,6 +39,35 @@ class Env(object):
         self.now = 1000
 
 
+class FalsyTok(object):
+    """A unique but FALSY result value (think: an empty result object)."""
+
+    def __init__(self, name, t):
+        self.name = name
+        self.t = t
+
+    def __bool__(self):
+        return False
+
+    def __eq__(self, other):
+        return isinstance(other, FalsyTok) and (other.name, other.t) == (self.name, self.t)
+
+    def __hash__(self):
+        return hash((self.name, self.t))
+
+    def __repr__(self):
+        return "FalsyTok(%r, %r)" % (self.name, self.t)
+
+
+def tokval(name, t):
+    """What the t-th body execution returns: mostly a unique tuple, sometimes a falsy object or None."""
+    if t % 5 == 1:
+        return FalsyTok(name, t)
+    if t % 7 == 3:
+        return None
+    return ("tok", name, t)
+
+
 def body(name, a, b, c):
     from .. import harness
 
@@ -50,7 +79,7 @@ def body(name, a, b, c):
     if e.fail_next:
         e.fail_next = False
         raise UserErr(("body", name, t))
-    return ("tok", name, t)
+    return tokval(name, t)
 
 
 def spell(key, s):
@@ -233,7 +262,7 @@ def run_history(kind, hist, seed):
                             if out[0] != "exc":
                                 viol.append(("raising-body-did-not-raise-to-caller", {"op": op, "observed": out}))
                         else:
-                            want = ("val", ("tok", name, tok))
+                            want = ("val", tokval(name, tok))
                             if out != want:
                                 viol.append(("miss-returned-wrong-value", {"op": op, "expected": want, "observed": out}))
                             if model is not None:
@@ -269,7 +298,7 @@ def run_history(kind, hist, seed):
                             viol.append(("hit-returned-wrong-value", {"op": op, "expected": d[k], "observed": v}))
                     else:
                         toks = [t for (n, na, t) in env.execs[nexec:] if na == k]
-                        if len(toks) != 1 or v != ("tok", "m", toks[0]):
+                        if len(toks) != 1 or v != tokval("m", toks[0]):
                             viol.append(("miss-returned-wrong-value", {"op": op, "observed": v}))
                         d[k] = v
                 if viol:
@@ -357,7 +386,7 @@ def run_lazy(hist, env, stats):
                             break
                     else:
                         tok = env.execs[-1][2]
-                        if out != ("val", ("tok", "const", tok)):
+                        if out != ("val", tokval("const", tok)):
                             viol.append(("miss-returned-wrong-value", {"op": op, "observed": out}))
                             break
                         m_val = out[1]
